@@ -16,7 +16,8 @@ from .. import tdfref as R
 PROP = "C05"
 RULE = ("states = (kind, item masks) ; all 2^n masks n<=8 (thorough 13), all masks with <=1 run over 64 (128) frames and "
         "<=2 runs over 16 (24) frames, 2-3 items "
-        "with independent masks; per state: independent parse of the written run table + decode under 3 "
+        "with independent masks, present frames that are NaN in single components, the same samples in 4 other memory "
+        "layouts; per state: independent parse of the written run table + decode under 3 "
         "allocator poisons x 2 repeats x 2 byte sources; non-trivial = some item has >=2 runs or starts/ends "
         "with a gap")
 RULE = RULE + editwalk.RULE_SUFFIX
